@@ -65,6 +65,13 @@ class ConcreteInputs:
             raise Ignore(name)
         return v
 
+    def concrete(self, value):
+        return value
+
+    def untraced(self):
+        import contextlib
+        return contextlib.nullcontext()
+
     def bool(self, name):
         return bool(self._get(name, False))
 
@@ -262,6 +269,15 @@ class SymbolicInputs:
         if isinstance(value, (bool, int, float, str)):      # proxies included (isinstance is patched): realise
             value = self.ch.deep_realize(value)
         self.notes[key] = value
+
+    def concrete(self, value):
+        """native Python value of a (possibly proxied) value: for C-level consumers such as bytearray.fromhex"""
+        return self.ch.deep_realize(value)
+
+    def untraced(self):
+        """context manager: run a stretch whose inputs are all native values without CrossHair's interception
+        (works around library models that break under tracing, e.g. bytearray.fromhex in crosshair 0.0.110)"""
+        return self.ch.NoTracing()
 
     def now_symbolic(self, loop):
         """Turn the loop clock into a proxy so that every timestamp taken from now on is symbolic-typed."""
